@@ -237,8 +237,31 @@ def gen_jobs(ck: Check):
         ubs.append(int(inst.tour_length_upper_bound))
         return len(mats) - 1
 
-    def solve(stream, mid, start, raw):
-        jobs.append({"t": "solve", "stream": stream, "mid": mid, "start": start, "raw": [list(m) for m in raw]})
+    def solve(stream, mid, start, raw, algos=("ea", "fea")):
+        jobs.append({"t": "solve", "stream": stream, "mid": mid, "start": start, "raw": [list(m) for m in raw],
+                     "algos": list(algos)})
+
+    # (4b) storage-type thresholds: distances around 2^7, 2^8, 2^15, 2^16, 2^31, 2^32 and far beyond, mixed with small ones
+    # (the instance picks its integer type from the largest value; a tour length then exceeds every narrower type).
+    # The FEA needs a table of upper-bound + 1 cells, so it only takes part where that is allocatable.
+    for hi in (127, 128, 255, 256, 32767, 32768, 65535, 65536, 2**31 - 1, 2**31, 2**32 - 1, 2**32, 3 * 10**9, 10**12,
+               10**14):
+        for n in ((4, 6) if quick else (4, 5, 6, 9)):
+            M = [[0] * n for _ in range(n)]
+            for i in range(n):
+                for j in range(i + 1, n):
+                    M[i][j] = M[j][i] = rng.randint(1, 9) if rng.random() < 0.5 else hi - rng.randint(0, 3)
+            a, b = rng.sample(range(n), 2)
+            M[a][b] = M[b][a] = hi
+            inst = make_instance(M)
+            if inst is None:
+                continue
+            mid = add_matrix(M, inst)
+            algos = ("ea", "fea") if ubs[mid] <= 2_500_000 else ("ea",)
+            allp = [(a, b) for a in range(n - 1) for b in range(n - 1)]
+            for _ in range(2):
+                rng.shuffle(allp)
+                solve("dtype_hist", mid, rand_perm(rng, n), allp * 2, algos)
 
     # (2) exhaustive small scope: every drawable pair (a, b) as a one-move history and all of them as one history
     for _ in range(60 if quick else 250):
@@ -331,7 +354,7 @@ def exec_job(job, inst, only=None):
     import numpy as np
     out = {}
     if job["t"] == "solve":
-        for kind in ("ea", "fea"):
+        for kind in job.get("algos", ("ea", "fea")):
             if only is not None and kind not in only:
                 continue
             trace, evald, h, err, moves = run_solve(kind, inst, job["start"], [tuple(m) for m in job["raw"]])
@@ -405,7 +428,7 @@ def streams(ck: Check) -> None:
                  (job["t"] == "kernel" and job["stream"] == "malformed")} for job, r in zip(jobs, res_bc)]
         res = json.loads(json.dumps(run_jobs(mats, jobs, skip)))
         for k, (job, r, rb) in enumerate(zip(jobs, res, res_bc)):
-            for a in ("ea", "fea"):
+            for a in job.get("algos", ("ea", "fea")):
                 if a not in r:
                     r[a] = rb[a]
                     ck.count("ran_boundschecked_only")
@@ -426,7 +449,7 @@ def streams(ck: Check) -> None:
             start = job["start"]
             ck.count(sname)
             ck.count(f"n={n}" if n <= 8 else ("n=9..30" if n <= 30 else "n>30"))
-            for kind in ("ea", "fea"):
+            for kind in job.get("algos", ("ea", "fea")):
                 q = r[kind]
                 trace, evald, err = [tuple(t) for t in q["trace"]], q["evald"], q["err"]
                 moves = [tuple(m) for m in q["moves"]]
